@@ -656,7 +656,12 @@ func (r *refEval) eval(n *vnode, env *venv) (value.Value, error) {
 			// short-circuit on the left operand; the right operand is returned as is
 			ab, ok := a.(value.Bool)
 			if !ok {
-				return nil, errRef
+				// not a bool: the operator's own table decides (bitwise on ints, error otherwise)
+				b, err := r.eval(n.kids[1], env)
+				if err != nil {
+					return nil, err
+				}
+				return r.prim("x0 "+n.s+" x1", argNames[:2], a, b)
 			}
 			if n.s == "&" && !bool(ab) {
 				return value.Bool(false), nil
@@ -664,7 +669,14 @@ func (r *refEval) eval(n *vnode, env *venv) (value.Value, error) {
 			if n.s == "|" && bool(ab) {
 				return value.Bool(true), nil
 			}
-			return r.eval(n.kids[1], env)
+			bv, err := r.eval(n.kids[1], env)
+			if err != nil {
+				return nil, err
+			}
+			if _, ok := bv.(value.Bool); !ok {
+				return nil, errRef
+			}
+			return bv, nil
 		}
 		b, err := r.eval(n.kids[1], env)
 		if err != nil {
